@@ -92,6 +92,7 @@ class Agent:
         self.algo = "Duck"
         self.regret = [0]
         self.discrete_actions = True
+        self.start = 0          # step counter on entry (a population that has trained before)
 
     def clone(self, index=None, wrap=True):
         c = Agent.__new__(Agent)
@@ -204,13 +205,16 @@ class Accounting(Case):
     assumptions = ("1 <= max_steps <= 8, 1 <= evo_steps <= 4, 1 <= learn_step <= 3, 1 <= checkpoint <= 4 (loops fork on these)",)
     outside = ("that learn() accepts what the real samplers return, evaluation / mutation / checkpoint files with real agents (the rest of C20)",)
 
-    def __init__(self, loop, num_envs, pop=2, evolve=False, ready=False):
-        self.loop, self.E, self.P, self.evolve, self.ready = loop, num_envs, pop, evolve, ready
+    def __init__(self, loop, num_envs, pop=2, evolve=False, ready=False, resumed=False, early=False):
+        self.loop, self.E, self.P, self.evolve, self.ready, self.resumed, self.early = loop, num_envs, pop, evolve, ready, resumed, early
         self.mod, self.fn = LOOPS[loop]
         self.functions = (getattr(self.mod, self.fn),) + ((TournamentSelection.select, utils_mod.tournament_selection_and_mutation) if evolve else ())
-        self.name = f"accounting-{self.fn}-envs{num_envs}-pop{pop}" + ("-evolve" if evolve else "") + ("-ready" if ready else "")
+        self.name = (f"accounting-{self.fn}-envs{num_envs}-pop{pop}" + ("-evolve" if evolve else "") + ("-ready" if ready else "") + ("-resumed" if resumed else "")
+                     + ("-early-stop" if early else ""))
         self.site = f"{self.fn}/accounting"
         self.bounds = {"loop": self.fn, "num_envs": num_envs, "population": pop, "tournament+mutation+checkpoint": evolve, "memory always ready": ready,
+                       "resumed": "every agent enters with its own symbolic step counter in [0,2] (a population that has trained before)" if resumed else False,
+                       "early_stop": "target below every fitness and a step history of 99 earlier generations: the early-stopping exit is taken after the first generation" if early else False,
                        "symbolic": "max_steps in [1,8], evo_steps (bandits: episode_steps and evo_steps) in [1,4], learn_step in [1,3] (per agent; shared by the population in the evolve cases), checkpoint in [1,4]"}
 
     def run(self, v):
@@ -244,6 +248,17 @@ class Accounting(Case):
         env = VecEnv(E, multi, bandit=(loop == "bandit"))
         pop = [Agent(i, env, lss[i], loop, multi) for i in range(P)]
         pop_in = list(pop)
+        s0 = [0] * P
+        if self.resumed:
+            # a population that has trained before: the counters the loops read are the agents' own, not a fresh local one
+            s0 = [v.int(f"steps_before{i}") for i in range(P)]
+            v.assume(conj(*[conj(x >= 0, x <= 2) for x in s0]))
+            for a, x in zip(pop, s0):
+                a.steps = [x]
+                a.start = x
+        if self.early:
+            for a in pop:
+                a.steps = [0] * 99 + [0]                  # 99 generations recorded earlier: the early-stopping exit needs len(steps) >= 100
         mem = Memory(self.ready)
         saves = []
         patches = [(self.mod, "trange", lambda *a, **k: _Bar()), (self.mod, "print", lambda *a, **k: None),
@@ -252,6 +267,8 @@ class Accounting(Case):
             patches.append((self.mod, "int", ShimInt))
         fn = getattr(self.mod, self.fn)
         kw = dict(max_steps=max_steps, evo_steps=evo, verbose=False)
+        if self.early:
+            kw["target"] = -1.0                           # below every fitness the duck agents report
         tourn = mut = None
         if self.evolve:
             tourn, mut = Tourn(P), Mut()
@@ -273,6 +290,7 @@ class Accounting(Case):
                 out_pop, fits = fn(env, "stub-env", data, "Duck", pop, mem, **kw)
         ms, ev = cint(max_steps), cint(evo)
         ls_c = [cint(x) for x in lss]
+        s0 = [cint(x) for x in s0]
         # reference: environment steps agent i takes per generation, as the loops are documented
         if loop in ("off", "ma-off"):
             per = [(ev // E) * E for _ in ls_c]
@@ -289,7 +307,7 @@ class Accounting(Case):
         res.append(Ob("indices-stay-distinct", len({a.index for a in final}) == len(final), site=self.site + "/indices"))
         for i, a in enumerate(final):
             taken = a.learns if loop == "offline" else a.env_steps_taken
-            res.append(Ob(f"agent{i}/step-counter-equals-the-environment-steps-it-took", a.steps[-1] == taken, site=self.site + "/step-counter"))
+            res.append(Ob(f"agent{i}/step-counter-equals-the-environment-steps-it-took", a.steps[-1] == a.start + taken, site=self.site + "/step-counter"))
         # generations actually run = evaluations per agent
         G = final[0].tests
         res.append(Ob("one-evaluation-per-agent-and-generation", all(a.tests == G and len(a.fitness) == G for a in final), site=self.site + "/fitness-entries"))
@@ -297,11 +315,18 @@ class Accounting(Case):
                       site=self.site + "/returned-fitnesses"))
         if min(per) > 0:
             if loop == "ma-on":
-                done_after = lambda g: sum(g * x for x in per) >= ms          # budget summed over the population
+                done_after = lambda g: sum(b + g * x for b, x in zip(s0, per)) >= ms          # budget summed over the population
             else:
-                done_after = lambda g: any(g * x >= ms for x in per)          # per-agent budget: stop as soon as one agent has met it
-            res.append(Ob("stops-in-the-first-generation-in-which-the-budget-is-met", G >= 1 and done_after(G) and not done_after(G - 1), site=self.site + "/stop-generation"))
-            res.append(Ob("every-agent-took-the-documented-steps-per-generation", all(a.steps[-1] == G * x for a, x in zip(final, per)), site=self.site + "/step-counter"))
+                done_after = lambda g: any(b + g * x >= ms for b, x in zip(s0, per))          # per-agent budget: stop as soon as one agent has met it
+            if self.early:
+                # the target is met from the first evaluation on and 100 generations are on record: one generation, then the early exit
+                res.append(Ob("early-stopping-exit-after-the-first-generation", G == 1, site=self.site + "/early-stop"))
+            else:
+                res.append(Ob("stops-in-the-first-generation-in-which-the-budget-is-met", done_after(G) and (G == 0 or not done_after(G - 1)), site=self.site + "/stop-generation"))
+            if not self.evolve:
+                res.append(Ob("every-agent-took-the-documented-steps-per-generation", all(a.steps[-1] == b + G * x for a, b, x in zip(final, s0, per)), site=self.site + "/step-counter"))
+            else:
+                res.append(Ob("every-agent-took-the-documented-steps-per-generation", all(a.steps[-1] == G * x for a, x in zip(final, per)), site=self.site + "/step-counter"))
         # learn-call schedule
         if loop in ("on", "ma-on"):
             res.append(Ob("a-learn-call-after-every-learn_step-chunk", all(a.learns == G * -(-ev // l) for a, l in zip(final, ls_c)), site=self.site + "/learn-schedule"))
@@ -348,7 +373,8 @@ class Accounting(Case):
             fin = final[0].steps[-1]
             res.append(Ob("checkpoints/whole-population-saved", all(len(sv) == P for sv in saves), site=self.site + "/checkpoint"))
             res.append(Ob("checkpoints/count-within-the-documented-frequency", len(saves) <= min(G, fin // c_ck) and (len(saves) >= 1 or fin < c_ck), site=self.site + "/checkpoint"))
-        res.append(Ob("twin/never-more-than-one-generation", G <= 1, expect="sat"))
+        if not self.early:
+            res.append(Ob("twin/never-more-than-one-generation", G <= 1, expect="sat"))
         return res
 
 
@@ -455,11 +481,15 @@ def cases(tier):
           Accounting("ma-off", 2), Accounting("bandit", 1), Accounting("offline", 1),
           Accounting("off", 2, ready=True), Accounting("ma-off", 2, ready=True), Accounting("bandit", 1, ready=True),
           Accounting("on", 2, evolve=True), Accounting("off", 2, evolve=True, ready=True), Accounting("bandit", 1, evolve=True),
-          EnvAction("on", True, E=1), EnvAction("on", False, E=1), EnvAction("ma-on", True, E=1), EnvAction("ma-on", False, E=1, steps=1)]
+          EnvAction("on", True, E=1), EnvAction("on", False, E=1), EnvAction("ma-on", True, E=1), EnvAction("ma-on", False, E=1, steps=1),
+          Accounting("ma-on", 2, resumed=True), Accounting("off", 2, resumed=True), Accounting("on", 1, early=True), Accounting("ma-off", 2, early=True),
+          Accounting("ma-on", 2, early=True), Accounting("off", 2, early=True)]
     if tier == "thorough":
         cs += [Accounting("on", 3, pop=3), Accounting("ma-on", 1, pop=3), Accounting("off", 3, pop=3),
                Accounting("ma-off", 1, pop=3, ready=True), Accounting("off", 3, pop=3, ready=True), Accounting("off", 1, ready=True),
                Accounting("ma-on", 2, evolve=True), Accounting("ma-off", 2, evolve=True), Accounting("offline", 1, evolve=True),
                Accounting("on", 1, pop=3, evolve=True), Accounting("bandit", 1, pop=3, evolve=True, ready=True),
+               Accounting("on", 2, resumed=True), Accounting("ma-off", 2, resumed=True), Accounting("bandit", 1, resumed=True), Accounting("offline", 1, resumed=True),
+               Accounting("bandit", 1, early=True), Accounting("offline", 1, early=True),
                EnvAction("on", True, E=2), EnvAction("on", False, E=2, steps=1), EnvAction("ma-on", True, E=2), EnvAction("ma-on", False, E=1, steps=2)]
     return cs
